@@ -37,6 +37,17 @@ MISC = ["foreach1", "foreach2", "expand", "expand_lfun", "switch_int", "switch_s
         "aggregate", "catch_throw", "evaluate", "call_other_any", "neg_index_chain", "while_dec", "loop_cond", "string_char_inc",
         "add_eq_chain", "sprintf_col", "sprintf_tab", "implode_fp", "sort_fp", "unique_fp", "filter_map", "save_restore"]
 
+# "chain" tests: a value held by two variables goes through three statements, so that what an in-place write (copy on write) leaves
+# behind is consumed by a later operator or efun that sizes its result from the cached length / size
+CHAINSTEPS = LVALFORMS + ["y = x + b", "y = b + x", "x += b", "x += x", "y = x", "x = y + x", "y = upper_case(x)", "y = lower_case(x)",
+                          "y = capitalize(x)", "y = x[b..c]", 'y = sprintf("%s|%O", x, x)', "y = implode(({ x, x }), d)", "y = explode(x, d)",
+                          "y = replace_string(x, d, d + d)", "y = copy(x)", "y = x - b", "y = ({ x }) + ({ y })", "x[b..c] = y", "y = x + x",
+                          "y = set_bit(x, b)", "y = x * 2", "y = x & y", "y = x | y", "y += x", "x = x[b..]", "y = strlen(x)", "y = sizeof(x)",
+                          "z = x", "y = z + b", "z += d"]
+_BIG = [i for i, v in enumerate(genlpc.ALL_VALUES) if v[0] in ("s_65535", "s_65536", "s_70000", "s_256", "a_1000", "a_max", "a_8", "s_abc", "m_100", "b_1000")]
+_SMALLINT = [i for i, v in enumerate(genlpc.ALL_VALUES) if v[0] in ("i0", "i1", "i2", "i7", "i255", "i65535")]
+_FILL = [i for i, v in enumerate(genlpc.ALL_VALUES) if v[0] in ("i7", "i255", "s_a", "s_abc", "s_empty", "a_1", "a_mixed", "s_256")]
+
 EXCLUDED_EFUNS = {"shutdown": "terminating is its documented job"}
 
 _VALS = genlpc.ALL_VALUES
@@ -78,8 +89,18 @@ def efun_call(draw):
 
 @st.composite
 def one_test(draw):
-    k = draw(st.sampled_from(["binop", "binop", "unop", "assignop", "incdec", "index", "lval", "efun", "efun", "efun", "efun", "misc"]))
+    k = draw(st.sampled_from(["binop", "binop", "unop", "assignop", "incdec", "index", "lval", "efun", "efun", "efun", "efun", "misc", "chain", "chain"]))
     frame = draw(st.sampled_from(FRAMES))
+    if k == "chain":
+        def pick(pref):
+            return list(_VALS[draw(st.sampled_from(pref))]) if draw(st.integers(0, 9)) < 7 else draw(vals)
+        steps = draw(st.lists(st.sampled_from(CHAINSTEPS), min_size=2, max_size=4))
+        if draw(st.integers(0, 9)) < 6:
+            steps[0] = draw(st.sampled_from(LVALFORMS[:8]))      # an in-place write first, consumers after it
+        t = dict(kind=k, op="chain", steps=steps,
+                 vals=[pick(_BIG), pick(_SMALLINT), pick(_SMALLINT), pick(_FILL)])
+        t["frame"] = frame
+        return t
     if k == "efun":
         t = draw(efun_call())
     elif k == "binop":
@@ -124,6 +145,8 @@ def body_of(t):
         return "return %s;" % op
     if k == "lval":
         return "mixed x = a; %s; return x;" % op
+    if k == "chain":
+        return "mixed x = a; mixed y = x; mixed z; " + " ".join("catch(%s);" % st_ for st_ in t["steps"]) + " return ({ x, y, z });"
     if k == "efun":
         n = len(t["vals"])
         names = ["a", "b", "c", "d", "e", "f", "g"][:n]
@@ -205,7 +228,7 @@ def render(case, subst=None):
 
 
 def key_of(t):
-    return (t["kind"], t["op"], t.get("target", t.get("spelling", "")), tuple(v[1] for v in t["vals"]),
+    return (t["kind"], t["op"], t.get("target", t.get("spelling", "")) or ";".join(t.get("steps", [])), tuple(v[1] for v in t["vals"]),
             tuple(v[0] for v in t["vals"]), t["frame"])
 
 
